@@ -399,8 +399,11 @@ CmdStr(c) ==
       [] k = "="  -> LocStr(c.loc) \o <<61>>
       [] k = "k"  -> LocStr(c.loc) \o <<107, c.m>>
       [] k = "rs" -> <<114, 115>> \o RegStr(c.reg)
-      [] k = "s"  -> LocStr(c.loc) \o <<115, 47>> \o Delimited(c.re, 47) \o <<47>> \o Delimited(c.rep, 47) \o <<47>>
-                     \o (IF c.g THEN <<103>> ELSE <<>>)
+      (* an empty replacement without flags may be typed without its closing delimiters: s/re/ and s/re *)
+      [] k = "s"  -> IF "short" \in DOMAIN c /\ c.short > 0 /\ c.rep = <<>> /\ ~c.g
+                     THEN LocStr(c.loc) \o <<115, 47>> \o Delimited(c.re, 47) \o (IF c.short = 1 /\ c.re # <<>> THEN <<47>> ELSE <<>>)
+                     ELSE LocStr(c.loc) \o <<115, 47>> \o Delimited(c.re, 47) \o <<47>> \o Delimited(c.rep, 47) \o <<47>>
+                          \o (IF c.g THEN <<103>> ELSE <<>>)
       [] k \in {"g", "v"} -> LocStr(c.loc) \o (IF k = "g" THEN <<103>> ELSE <<118>>) \o <<47>> \o Delimited(c.re, 47) \o <<47>> \o CmdsStr(c.cmds)
       [] k = "r"  -> LocStr(c.loc) \o <<114, 32>> \o c.name
       [] k = "!"  -> LocStr(c.loc) \o <<33, 116, 114, 32, 97, 45, 122, 32, 65, 45, 90>>          \* !tr a-z A-Z
